@@ -127,6 +127,17 @@ def tree(rng, depth, size=32):
             sib = [short, longer] + ([['O', op2, xs[:4]]] if rng.random() < 0.3 else [])
             rng.shuffle(sib)
             args += sib
+        elif y < 0.76:
+            # deep twins: sibling operands built by the same 8-11 rounds of wrappers over different leaves, so that
+            # they are identical on their top levels and differ only deep down
+            rounds = [(rng.choice(['+', '^', '*']), r_int(rng.choice([1, 3, 5, 0x10])), rng.choice(['<<', '>>', '<<<']), r_int(rng.choice([1, 3, 5])))
+                      for _ in range(rng.randrange(4, 7))]
+            def grow(t):
+                for o1, c1, o2, c2 in rounds:
+                    t = ['O', o2, [['O', o1, [t, c1]], c2]]
+                return t
+            leaves = rng.sample(REG_RECIPES + FRESH, rng.choice([2, 3]))
+            args += [grow(x) for x in leaves]
         if rng.random() < 0.25:
             args.append(args[0])                     # A op A rules
         if op == '+' and rng.random() < 0.25:
